@@ -56,7 +56,9 @@ fn run_isolated_once(prop: &str, cases: &[String], timeout_ms: u64, mem_mb: u64)
         // (re)start a worker for cases[next..]
         let mut child = Command::new("/bin/sh")
             .arg("-c")
-            .arg(format!("ulimit -v {}; ulimit -s 2048; exec \"$0\" worker {}", mem_mb * 1024, prop))
+            // 2 MiB = the default stack of a spawned Rust thread; the dev profile's frames are several times larger
+            // (the unchanged parser needs about 3 MiB for its own 128-level limit there), so it gets 16 MiB
+            .arg(format!("ulimit -v {}; ulimit -s {}; exec \"$0\" worker {}", mem_mb * 1024, if cfg!(debug_assertions) { 16384 } else { 2048 }, prop))
             .arg(&exe)
             .stdin(Stdio::piped()).stdout(Stdio::piped()).stderr(Stdio::null())
             .spawn().expect("spawn worker");
